@@ -680,6 +680,15 @@ type wrapped struct {
 	LineShift int
 	ColShift  int
 	Desc      string
+	Direct    []directRule // rules that are direct items of wrapper sequences, outermost frame first
+}
+
+// directRule: a complete recording rule placed by a "mixed sequence" wrapper frame next to the item that wraps the body.
+// RelLine/RelCol locate its first line relative to the first line / column of the wrapped list (invariant under outer frames).
+type directRule struct {
+	Name, Expr string
+	RelLine    int
+	RelCol     int
 }
 
 // wrap places the block sequence `list` (lines at column 0, e.g. "- record: a") under 0..4 wrapper levels of
@@ -697,8 +706,9 @@ func (g *docGen) wrapOpts(list []string, levels int, allowDocs bool) wrapped {
 		pre, post []string
 	}
 	lineShift := 0
+	var direct []directRule
 	for lv := 0; lv < levels; lv++ {
-		switch g.r.Intn(4) {
+		switch g.r.Intn(5) {
 		case 0, 1: // mapping key
 			key := pick(g.r, []string{"spec", "data", "foo", "rules", "alerts", "items", "x-y", "prometheus_rules"})
 			var pre, post []string
@@ -708,6 +718,13 @@ func (g *docGen) wrapOpts(list []string, levels int, allowDocs bool) wrapped {
 			}
 			if g.chance(0.4) {
 				post = append(post, pick(g.r, []string{"other: value", "zzz:\n  - 1\n  - 2", "empty: {}", "keep_firing_for: 1m", "name: wrapper"}))
+			}
+			if g.chance(0.15) {
+				// wide mapping: several unrelated keys before the one that holds the body
+				for i, n := 0, 3+g.r.Intn(4); i < n; i++ {
+					pre = append(pre, fmt.Sprintf("filler%d: %s", i, pick(g.r, []string{"x", "[1, 2]", "{a: b}", "~"})))
+				}
+				g.note("wrapper:wide-mapping")
 			}
 			var nb []string
 			for _, p := range pre {
@@ -731,6 +748,12 @@ func (g *docGen) wrapOpts(list []string, levels int, allowDocs bool) wrapped {
 			var nb []string
 			if g.chance(0.4) {
 				nb = append(nb, pick(g.r, []string{"- other", "- {a: b}", "- 5", "- [x]"}))
+			}
+			if g.chance(0.15) {
+				for i, n := 0, 3+g.r.Intn(4); i < n; i++ {
+					nb = append(nb, pick(g.r, []string{"- other", "- {a: b}", "- 5", "- [x]", "- ~"}))
+				}
+				g.note("wrapper:long-sequence")
 			}
 			nb = append(nb, "-")
 			lineShift += len(nb)
@@ -757,6 +780,25 @@ func (g *docGen) wrapOpts(list []string, levels int, allowDocs bool) wrapped {
 			}
 			body = nb
 			desc = append(desc, "seqmap:"+key)
+		case 4: // mixed sequence: complete rules as direct items next to the item that wraps the body
+			g.anchor++
+			key := pick(g.r, []string{"inner", "spec", "nested"})
+			n1 := fmt.Sprintf("mix%d:a", g.anchor)
+			nb := []string{"- record: " + n1, "  expr: vector(1)", "- " + key + ":"}
+			before := len(nb)
+			frame := []directRule{{Name: n1, Expr: "vector(1)", RelLine: -(lineShift + before), RelCol: -(col + 4)}}
+			nb = append(nb, indentLines(body, 4)...)
+			if g.chance(0.5) {
+				n2 := fmt.Sprintf("mix%d:b", g.anchor)
+				frame = append(frame, directRule{Name: n2, Expr: "vector(2)", RelLine: len(body) - lineShift, RelCol: -(col + 4)})
+				nb = append(nb, "- record: "+n2, "  expr: vector(2)")
+			}
+			lineShift += before
+			col += 4
+			body = nb
+			direct = append(frame, direct...)
+			desc = append(desc, "mixedseq:"+key)
+			g.note("wrapper:mixed-sequence")
 		}
 	}
 	// extra documents
@@ -778,7 +820,7 @@ func (g *docGen) wrapOpts(list []string, levels int, allowDocs bool) wrapped {
 	for _, p := range post {
 		all = append(all, strings.Split(p, "\n")...)
 	}
-	return wrapped{Text: strings.Join(all, "\n") + "\n", LineShift: lineShift, ColShift: col, Desc: strings.Join(desc, ",")}
+	return wrapped{Text: strings.Join(all, "\n") + "\n", LineShift: lineShift, ColShift: col, Desc: strings.Join(desc, ","), Direct: direct}
 }
 
 // embedded places a whole YAML text inside a scalar of an outer document (YAML in YAML, e.g. a ConfigMap).
